@@ -216,18 +216,21 @@ class C07(RoundTrip):
 
     def expected(self, d):
         s = observe.doc_sets(self._unified)
-        return numbers_by_value(s) if self._by_value else s
+        return numbers_by_value(s, self._by_value) if self._by_value else s
 
     def got(self, d2):
         s = observe.doc_sets(d2)
-        return numbers_by_value(s) if self._by_value else s
+        return numbers_by_value(s, self._by_value) if self._by_value else s
 
 
 def numeric_conflation(d):
-    """Do two records that share an identifier in one container hold, for the same attribute,
-    numbers that are equal as Python numbers but of different kinds?"""
+    """The (container, identifier, attribute) triples - container None for the document, else
+    the bundle's URI - for which two records sharing the identifier hold numbers that are
+    equal as Python numbers but of different kinds."""
     num = (bool, int, float)
+    out = set()
     for c in [d] + list(d.bundles):
+        ck = None if c is d else observe._uri(c.identifier)
         seen = {}
         for r in c.get_records():
             if r.identifier is None:
@@ -236,12 +239,14 @@ def numeric_conflation(d):
                 if isinstance(v, num):
                     for w in seen.setdefault((r.identifier.uri, a.uri), []):
                         if w == v and type(w) is not type(v):
-                            return True
+                            out.add((ck, r.identifier.uri, a.uri))
                     seen[(r.identifier.uri, a.uri)].append(v)
-    return False
+    return out
 
 
-def numbers_by_value(snap):
+def numbers_by_value(snap, triples):
+    """The snapshot with the numbers of the given (container, identifier, attribute) triples
+    keyed by value instead of by kind, and the attributes of those records as a set."""
     def val(k):
         if isinstance(k, tuple) and k and k[0] in ("int", "bool", "float"):
             v = float(k[1]) if k[0] == "float" else int(k[1])
@@ -250,8 +255,11 @@ def numbers_by_value(snap):
             return ("num", repr(v))
         return k
 
-    def rec(r):
-        return (r[0], r[1], tuple(sorted(((a, val(k)) for a, k in r[2]), key=repr)))
+    def rec(ck, r):
+        if not any(t[0] == ck and t[1] == r[1] for t in triples):
+            return r
+        return (r[0], r[1], frozenset((a, val(k) if (ck, r[1], a) in triples else k) for a, k in r[2]))
 
     recs, bundles = snap
-    return (frozenset(rec(r) for r in recs), tuple((u, frozenset(rec(r) for r in rs)) for u, rs in bundles))
+    return (frozenset(rec(None, r) for r in recs),
+            tuple((u, frozenset(rec(u, r) for r in rs)) for u, rs in bundles))
